@@ -563,6 +563,7 @@ func (e emb) pt(p pt) orb.Point {
 type input struct {
 	relID   int64 // id of the relation (default 1)
 	relZero bool  // the relation id really is 0
+	prefill bool  // members already carry version / changeset of the ways (re-annotation)
 	noAnnot bool  // way ids outside [0, 2^40): FeatureID packing (C10) does not apply, skip annotate
 	e       emb
 	spec    []gtPoly // nil = no spec
@@ -746,7 +747,8 @@ func (in *input) rid() int64 {
 	return in.relID
 }
 
-func (in *input) build(src int, orients []int64) *osm.OSM {
+func (in *input) build(src int, orients []int64, mask ...bool) *osm.OSM {
+	k := 0
 	o := &osm.OSM{}
 	if src != 1 {
 		for _, n := range in.nodes {
@@ -755,10 +757,12 @@ func (in *input) build(src int, orients []int64) *osm.OSM {
 		}
 	}
 	for _, w := range in.ways {
-		way := &osm.Way{ID: osm.WayID(w.id), Version: 1, Visible: true}
+		way := &osm.Way{ID: osm.WayID(w.id), Version: 1, Visible: true, ChangesetID: 10}
 		for _, id := range w.nodes {
 			wn := osm.WayNode{ID: osm.NodeID(id)}
-			if src != 0 {
+			ann := src == 1 || src == 2 || (src == 3 && k < len(mask) && mask[k])
+			k++
+			if ann {
 				if p, ok := in.nodeAt(id); ok {
 					f := in.e.pt(p)
 					wn.Lon, wn.Lat = f[0], f[1]
@@ -775,7 +779,11 @@ func (in *input) build(src int, orients []int64) *osm.OSM {
 		if !m.isWay {
 			t = osm.TypeNode
 		}
-		r.Members = append(r.Members, osm.Member{Type: t, Ref: m.ref, Role: roleName(m.role), Orientation: orb.Orientation(orients[i])})
+		mem := osm.Member{Type: t, Ref: m.ref, Role: roleName(m.role), Orientation: orb.Orientation(orients[i])}
+		if in.prefill { // version and changeset of the current way version already on the member
+			mem.Version, mem.ChangesetID = 1, 10
+		}
+		r.Members = append(r.Members, mem)
 	}
 	o.Relations = osm.Relations{r}
 	return o
@@ -795,6 +803,8 @@ func guard(f func()) {
 	}()
 	f()
 }
+
+var mixCounter int
 
 var dropped int // holes not reachable from the kernel by two clear legs
 
@@ -868,6 +878,7 @@ func ptsJSON(l []pt) [][2]int64 {
 type runObs struct {
 	src     int
 	incl    bool
+	mask    []bool
 	orients []int64
 	nfeat   int
 	kind    int
@@ -875,12 +886,12 @@ type runObs struct {
 	tainted bool
 }
 
-func doRun(in *input, src int, incl bool, orients []int64) runObs {
-	o := in.build(src, orients)
+func doRun(in *input, src int, incl bool, orients []int64, mask ...bool) runObs {
+	o := in.build(src, orients, mask...)
 	var fc *geojson.FeatureCollection
 	err := fmt.Errorf("panic")
 	guard(func() { fc, err = osmgeojson.Convert(o, osmgeojson.IncludeInvalidPolygons(incl)) })
-	ob := runObs{src: src, incl: incl, orients: orients}
+	ob := runObs{src: src, incl: incl, orients: orients, mask: mask}
 	if err != nil {
 		ob.nfeat = -1
 		return ob
@@ -924,6 +935,49 @@ func doAnnot(in *input, orients []int64) annotObs {
 		a.out = append(a.out, int64(m.Orientation))
 	}
 	return a
+}
+
+// twoStepAnnot: annotate.Relations first on a partial extract (some member ways missing,
+// IgnoreMissingChildren), then again on the same relation once all ways are there.  The
+// observation is the second run; its input orientations are what the first run left behind.
+func twoStepAnnot(rng *rand.Rand, in *input) (annotObs, bool) {
+	if len(in.ways) < 2 {
+		return annotObs{}, false
+	}
+	o := in.build(1, zeros(len(in.members)))
+	r := o.Relations[0]
+	var part osm.Ways
+	for _, w := range o.Ways {
+		if rng.Intn(2) == 0 {
+			part = append(part, w)
+		}
+	}
+	if len(part) == 0 || len(part) == len(o.Ways) {
+		part = o.Ways[:1]
+	}
+	err1 := fmt.Errorf("panic")
+	guard(func() {
+		err1 = annotate.Relations(context.Background(), osm.Relations{r},
+			(&osm.OSM{Ways: part}).HistoryDatasource(), annotate.Threshold(time.Hour), annotate.IgnoreMissingChildren(true))
+	})
+	if err1 != nil {
+		return annotObs{}, false
+	}
+	a := annotObs{}
+	for _, m := range r.Members {
+		a.in = append(a.in, int64(m.Orientation))
+	}
+	r.Updates = nil
+	err := fmt.Errorf("panic")
+	guard(func() {
+		err = annotate.Relations(context.Background(), osm.Relations{r},
+			(&osm.OSM{Ways: o.Ways}).HistoryDatasource(), annotate.Threshold(time.Hour))
+	})
+	a.ok = err == nil
+	for _, m := range r.Members {
+		a.out = append(a.out, int64(m.Orientation))
+	}
+	return a, true
 }
 
 // Go-side property oracle for a run on a scene with a spec ("" = holds).
@@ -1060,10 +1114,14 @@ func sceneCase(in *input, runs []runObs, annots []annotObs) *wire.Case {
 	c.Len(len(runs))
 	var rs []interface{}
 	for _, r := range runs {
-		c.Int(int64(r.src)).Bool(r.incl).Ints(r.orients).Int(int64(r.nfeat)).Int(int64(r.kind))
+		c.Int(int64(r.src)).Bool(r.incl).Ints(r.orients).Len(len(r.mask))
+		for _, b := range r.mask {
+			c.Bool(b)
+		}
+		c.Int(int64(r.nfeat)).Int(int64(r.kind))
 		encMP(c, r.polys)
 		c.Bool(r.tainted)
-		rs = append(rs, map[string]interface{}{"coords_from": []string{"nodes", "way_nodes", "both"}[r.src], "include_invalid": r.incl,
+		rs = append(rs, map[string]interface{}{"coords_from": []string{"nodes", "way_nodes", "both", "nodes + way nodes annotated per mask"}[r.src], "annotated_way_node_mask": r.mask, "include_invalid": r.incl,
 			"member_orientations": r.orients, "features": r.nfeat, "kind": []string{"none", "Polygon", "MultiPolygon", "other"}[r.kind],
 			"polygons": r.polys, "tainted": r.tainted})
 		if in.spec != nil && c.OracleFail == "" {
@@ -1110,7 +1168,41 @@ func partial(rng *rand.Rand, full []int64) []int64 {
 	return o
 }
 
-// a complete scene case: 6 Convert runs + 2 annotate runs
+// mixedMask: which way nodes (all ways of the input, in order) carry their location; node objects
+// are present as well.  Patterns: both ends only, interior only, first only, last only, all but
+// one interior node, random.
+func mixedMask(rng *rand.Rand, in *input, pattern int) []bool {
+	var m []bool
+	for _, w := range in.ways {
+		n := len(w.nodes)
+		hole := -1
+		if n > 2 {
+			hole = 1 + rng.Intn(n-2)
+		}
+		for i := 0; i < n; i++ {
+			end := i == 0 || i == n-1
+			var b bool
+			switch pattern {
+			case 0:
+				b = end
+			case 1:
+				b = !end
+			case 2:
+				b = i == 0
+			case 3:
+				b = i == n-1
+			case 4:
+				b = i != hole
+			default:
+				b = rng.Intn(2) == 0
+			}
+			m = append(m, b)
+		}
+	}
+	return m
+}
+
+// a complete scene case: Convert runs + annotate runs
 func specCase(rng *rand.Rand, in *input) *wire.Case {
 	n := len(in.members)
 	exp := expectedOrients(in)
@@ -1121,10 +1213,25 @@ func specCase(rng *rand.Rand, in *input) *wire.Case {
 		doRun(in, 0, false, partial(rng, exp)),
 		doRun(in, 1, false, exp),
 		doRun(in, rng.Intn(3), true, [][]int64{zeros(n), exp, partial(rng, exp)}[rng.Intn(3)]),
+		doRun(in, 3, false, [][]int64{zeros(n), exp}[rng.Intn(2)], mixedMask(rng, in, mixCounter%6)...),
 	}
+	mixCounter++
 	var annots []annotObs
 	if !in.noAnnot {
-		annots = []annotObs{doAnnot(in, zeros(n)), doAnnot(in, [][]int64{exp, partial(rng, exp)}[rng.Intn(2)])}
+		// stale / wrong orientations on the members must be overwritten as well
+		stale := make([]int64, n)
+		for i := range stale {
+			stale[i] = int64(rng.Intn(3) - 1)
+		}
+		annots = []annotObs{doAnnot(in, zeros(n)), doAnnot(in, [][]int64{exp, partial(rng, exp), stale}[rng.Intn(3)])}
+		// members that already carry version + changeset of the current ways (filled by another
+		// pipeline) but no / a stale orientation
+		in.prefill = true
+		annots = append(annots, doAnnot(in, [][]int64{zeros(n), stale}[rng.Intn(2)]))
+		in.prefill = false
+		if a, ok := twoStepAnnot(rng, in); ok {
+			annots = append(annots, a)
+		}
 	}
 	return sceneCase(in, runs, annots)
 }
